@@ -10,6 +10,8 @@ def run(ctx):
     from ..scen_text import text_nested
     text_nested(ctx)
     print_numbers(ctx)
+    from ..scen_print import print_string
+    print_string(ctx)          # nested values in a field are printed by the JSON string printer (utf8 on): control characters stay escaped
     from ..scen_misc import titles
     titles(ctx)
     from ..conform import conformance
